@@ -90,6 +90,35 @@ def kidsG (fn helper : String) : List String :=
   | some (_, _, names) => names
   | none => []
 
+/-! ### CPython `int(float)` and `float(int)`, concretely (IEEE-754 binary64) -/
+
+/-- `int(x)` for the double with bit pattern `b`: truncation toward zero; `int(inf)` OverflowError,
+    `int(nan)` ValueError.  mirrors CPython floatobject.c: float___trunc___impl / PyLong_FromDouble -/
+def truncF64 (b : UInt64) : Except PyExc Int :=
+  let n := b.toNat
+  let neg := n / 2 ^ 63 % 2 = 1
+  let e := n / 2 ^ 52 % 2048
+  let m := n % 2 ^ 52
+  if e = 2047 then (if m = 0 then .error .overflowError else .error .valueError)
+  else
+    let mant : Nat := if e = 0 then m else m + 2 ^ 52
+    let ex : Nat := if e = 0 then 1 else e
+    -- value = mant * 2^(ex - 1075)
+    let mag : Nat := if ex ≥ 1075 then mant * 2 ^ (ex - 1075) else mant / 2 ^ (1075 - ex)
+    .ok (if neg then -(mag : Int) else (mag : Int))
+
+/-- `float(i)` raises OverflowError ("int too large to convert to float") exactly when `|i|` rounds
+    (to nearest, ties to even) to 2^1024, i.e. `|i| ≥ 2^1024 − 2^970`.  mirrors CPython longobject.c:
+    PyLong_AsDouble / _PyLong_Frexp -/
+def floatOverflows (i : Int) : Bool := i.natAbs ≥ 2 ^ 1024 - 2 ^ 970
+
+/-- the codec with the two conversions above computed instead of looked up (the bit pattern of a
+    successful `float(i)` is still taken from the table) -/
+def concreteCodec (C : DecCodec) : DecCodec :=
+  { C with
+    truncFloat := truncF64,
+    floatOfInt := fun i => if floatOverflows i then none else C.floatOfInt i }
+
 inductive NumTy where
   | int (t : IntTy)
   | real (is64 : Bool)
